@@ -90,3 +90,23 @@ Print Assumptions C13_tables.
 Print Assumptions C13_closer_logic_sound.
 Print Assumptions C13_closer_logic_fails_only_without_candidate.
 Print Assumptions C13_most_generic_sound.
+
+(* ---- the case analysis of the model is the dispatch of the source (gen/Operators.v and gen/Dispatch.v are
+   REGENERATED from pysmt/operators.py and the walker classes on every run; qualified names only) *)
+From PySMT.gen Require Operators Dispatch.
+From PySMT.proofs Require Operators_proofs Dispatch_theory_proofs.
+Theorem C13_operator_table_matches_source :
+  (forall n, List.In n Operators.all_node_types) /\
+  (forall a b, Operators.nt_id a = Operators.nt_id b -> a = b) /\
+  (forall o, Operators.nt_modelled (Operators.nt_of_op o) = true) /\
+  (forall n, Operators.nt_modelled n = false <-> n = Operators.NT_ALGEBRAIC_CONSTANT).
+Proof.
+  exact (conj Operators_proofs.all_node_types_complete (conj Operators_proofs.nt_id_injective
+         (conj Operators_proofs.nt_of_op_modelled Operators_proofs.only_algebraic_constant_unmodelled))).
+Qed.
+
+Theorem C13_theoryo_dispatch_matches_source : forall o, exists h,
+  Dispatch_theory_proofs.theoryo_handler_of_name (Dispatch.theoryo_dispatch (Operators.nt_of_op o)) = Some h /\
+  forall targs args, theory_rule o targs args = Dispatch_theory_proofs.theoryo_handler_rule h o targs args.
+Proof. exact Dispatch_theory_proofs.theoryo_dispatch_matches_source. Qed.
+Print Assumptions C13_theoryo_dispatch_matches_source.
